@@ -19,7 +19,9 @@ TRUSTED = [
 ]
 ASSUMPTIONS = [
     'objects are unique integers, keys are strings; style-consistent operations as defined by Op.ok',
-    'slices, pop(key, default), update() with malformed pairs are outside the model',
+    'slices, update() with malformed pairs are outside the model',
+    'list mutators ListProxy inherits without overriding (reverse, sort, del, +=, *=) are modelled as acting on '
+    'the throw-away proxy only (op `inherited`)',
 ]
 RULE = ('directed prefix (every mutator in both styles, error paths) + all operation sequences of length <=2 '
         '(<=3 in thorough) over a fixed alphabet for list- and dict-declared Selector/ListSelector + random '
@@ -30,7 +32,7 @@ RULE = ('directed prefix (every mutator in both styles, error paths) + all opera
 COVERAGE_TARGETS = [f'{op}:ok:{st}' for st in ('list', 'dict') for op in
                     ('popIdx', 'remove', 'clear', 'replaceList', 'replaceDict', 'assign')] + \
                    [f'{op}:ok:list' for op in ('setIdx', 'append', 'insert', 'extend')] + \
-                   [f'{op}:ok:dict' for op in ('setKey', 'update', 'popKey')] + \
+                   [f'{op}:ok:dict' for op in ('setKey', 'update', 'popKey')] + ['inherited:ok:list', 'inherited:ok:dict'] + \
                    ['popIdx:err:list', 'popKey:err:dict', 'remove:err:list', 'assign:err:list', 'assign:err:dict']
 
 
@@ -212,6 +214,23 @@ def run_impl(case):
                         # ListSelector must add a new item to its objects once
                         item = _o(op['v'])
                         setattr(inst, 's', [item, item] if op.get('dup') else [item])
+                elif o == 'inherited':
+                    # a `list` mutator ListProxy does not override, on a proxy of its own (never the held view):
+                    # the model says the Parameter is untouched and nobody is notified
+                    tmp, m = p.objects, op.get('m', 'reverse')
+                    if m == 'reverse':
+                        tmp.reverse()
+                    elif m == 'sort':
+                        tmp.sort(key=id, reverse=True)
+                    elif m == 'del':
+                        if len(tmp):
+                            del tmp[0]
+                    elif m == 'iadd':
+                        tmp += [_o(99)]
+                    elif m == 'imul':
+                        tmp *= 2
+                    else:
+                        raise RuntimeError(m)
                 else:
                     raise RuntimeError(o)
             except (IndexError, ValueError, KeyError) as e:
@@ -261,7 +280,8 @@ def _alphabet(style, pos):
     n1, n2 = 10 + 2 * pos, 11 + 2 * pos
     common_ops = [{'op': 'popIdx', 'i': 0}, {'op': 'popIdx', 'i': -1, 'default': True}, {'op': 'popIdx', 'i': 1},
                   {'op': 'popIdx', 'i': 7}, {'op': 'remove', 'o': 2}, {'op': 'remove', 'o': 99}, {'op': 'clear'},
-                  {'op': 'assign', 'v': 1}, {'op': 'assign', 'v': n1}, {'op': 'assign', 'v': 10}, {'op': 'assign', 'v': n2, 'dup': True}]
+                  {'op': 'assign', 'v': 1}, {'op': 'assign', 'v': n1}, {'op': 'assign', 'v': 10}, {'op': 'assign', 'v': n2, 'dup': True},
+                  {'op': 'inherited', 'm': ('reverse', 'del', 'iadd')[pos % 3]}]
     if style == 'list':
         return common_ops + [{'op': 'setIdx', 'i': 0, 'o': n1}, {'op': 'setIdx', 'i': -1, 'o': n1},
                              {'op': 'setIdx', 'i': 5, 'o': n1}, {'op': 'append', 'o': n1},
@@ -347,7 +367,9 @@ def _random_case(rng):
             op = {'op': 'assign', 'v': existing() if rng.random() < 0.7 else next(fresh)}
             if kind == 'ListSelector' and rng.random() < 0.4:
                 op['dup'] = True
-        elif r < 0.38:
+        elif r < 0.36:
+            op = {'op': 'inherited', 'm': rng.choice(['reverse', 'sort', 'del', 'iadd', 'imul'])}
+        elif r < 0.41:
             if st == 'list':
                 op = {'op': 'replaceList', 'os': [newo() for _ in range(rng.randint(0, 4))]}
             else:
